@@ -239,6 +239,41 @@ fn text_ok(input: &str, t: &Text, what: &str) -> Verdict {
         }
         prev_end = Some(f.end());
     }
+    // the derived views of a text say the same as its fragments
+    let joined: String = t
+        .fragments()
+        .iter()
+        // a fragment's kind has no getter; its Debug form names soft breaks (only fragments made of line
+        // break characters can be one, so the formatting cost is paid rarely)
+        .map(|f| if !f.text().is_empty() && f.text().chars().all(|c| c == '\n' || c == '\r') && format!("{f:?}").starts_with("SoftBreak(") { " " } else { f.text() })
+        .collect();
+    let views = guard(|| (t.text().into_owned(), t.text_outer_trimmed().into_owned(), t.text_trimmed().into_owned(), t.is_text_empty(), t.located_text_trimmed(), t.located_string_trimmed()));
+    let (text, outer, trimmed, empty, loc, loc_s) = match views {
+        Ok(v) => v,
+        Err(p) => return Err(Violation::new(panic_sig("c04", "text-view", &p), format!("{what}: a Text accessor panicked: {p}; input {input:?}"))),
+    };
+    let collapsed = {
+        let mut out = String::new();
+        let mut prev = ' ';
+        for c in joined.trim().chars() {
+            if c != ' ' || prev != ' ' {
+                out.push(c);
+            }
+            prev = c;
+        }
+        out
+    };
+    vensure!(
+        text == joined && outer == joined.trim() && trimmed == collapsed && empty == joined.trim().is_empty(),
+        "c04.text-view",
+        "{what}: fragments spell {joined:?} but text() = {text:?}, text_outer_trimmed() = {outer:?}, text_trimmed() = {trimmed:?} (expected {collapsed:?}), is_text_empty() = {empty}; input {input:?}"
+    );
+    vensure!(
+        *loc.value() == trimmed && *loc_s.value() == trimmed && loc.span() == t.span() && loc_s.span() == t.span(),
+        "c04.text-view",
+        "{what}: located_text_trimmed() = {:?} @ {:?}, located_string_trimmed() = {:?} @ {:?}, but text_trimmed() = {trimmed:?} and span() = {:?}; input {input:?}",
+        loc.value(), loc.span(), loc_s.value(), loc_s.span(), t.span()
+    );
     Ok(())
 }
 
@@ -878,6 +913,61 @@ pub fn c07_structure(input: &str, ext_idx: usize, conv_sel: u8, st: &mut Stats) 
         if has_err {
             st.class("analysis-error-with-output");
             st.nontrivial(&(input, ext_idx, conv_sel));
+        }
+    }
+    // every view of the result tells the same story (the consuming views need a parse each: only when
+    // there is something to tell)
+    let n_warn = rep.iter().filter(|d| d.severity == Severity::Warning).count();
+    vensure!(
+        rep.has_warnings() == (n_warn > 0) && rep.errors().count() == n_err && rep.warnings().count() == n_warn && rep.is_empty() == (n_err + n_warn == 0),
+        "c07.report-views-inconsistent",
+        "report holds {n_err} errors / {n_warn} warnings but has_warnings() = {}, errors() = {}, warnings() = {}, is_empty() = {}; input {input:?}",
+        rep.has_warnings(), rep.errors().count(), rep.warnings().count(), rep.is_empty()
+    );
+    vensure!(
+        rep.iter().all(|d| d.is_error() == (d.severity == Severity::Error) && d.is_warning() == (d.severity == Severity::Warning)),
+        "c07.report-views-inconsistent",
+        "is_error() / is_warning() disagree with the severity field; input {input:?}"
+    );
+    vensure!(res.valid_output().is_some() == res.is_valid(), "c07.validity-definition", "valid_output() is {} but is_valid() = {}; input {input:?}", if res.valid_output().is_some() { "Some" } else { "None" }, res.is_valid());
+    if n_err + n_warn > 0 {
+        let (valid, has_output) = (res.is_valid(), res.has_output());
+        let views = guard(|| {
+            let as_result = p.parse(input).into_result();
+            let (out, rep2) = p.parse(input).into_tuple();
+            let (errs, warns) = p.parse(input).into_report().unzip();
+            let mut only_errors = p.parse(input).into_report();
+            only_errors.remove_warnings();
+            (as_result, out.is_some(), rep2.iter().count(), errs, warns, only_errors)
+        });
+        if let Ok((as_result, tuple_has_output, tuple_count, errs, warns, only_errors)) = views {
+            match &as_result {
+                Ok((_, r)) => vensure!(
+                    valid && !r.has_errors() && r.errors().count() == 0 && r.iter().count() == n_warn && r.has_warnings() == (n_warn > 0),
+                    "c07.validity-definition",
+                    "into_result() is Ok (report: {} diagnostics, has_errors {}) but is_valid() = {valid}, {n_err} errors, {n_warn} warnings; input {input:?}",
+                    r.iter().count(), r.has_errors()
+                ),
+                Err(r) => vensure!(
+                    !valid && r.iter().count() == n_err + n_warn && r.has_errors() == has_err,
+                    "c07.validity-definition",
+                    "into_result() is Err (report: {} diagnostics) but is_valid() = {valid}, {n_err} errors, {n_warn} warnings; input {input:?}",
+                    r.iter().count()
+                ),
+            }
+            vensure!(tuple_has_output == has_output && tuple_count == n_err + n_warn, "c07.report-views-inconsistent", "into_tuple() gives output {tuple_has_output} / {tuple_count} diagnostics, the borrowed view {has_output} / {}; input {input:?}", n_err + n_warn);
+            vensure!(
+                errs.iter().count() == n_err && warns.iter().count() == n_warn && errs.iter().all(|d| d.is_error()) && warns.iter().all(|d| d.is_warning()) && errs.has_errors() == has_err && !errs.has_warnings() && warns.has_warnings() == (n_warn > 0) && !warns.has_errors(),
+                "c07.report-views-inconsistent",
+                "unzip() gives {} errors / {} warnings, the report holds {n_err} / {n_warn}; input {input:?}",
+                errs.iter().count(), warns.iter().count()
+            );
+            vensure!(
+                only_errors.iter().count() == n_err && only_errors.iter().all(|d| d.is_error()),
+                "c07.report-views-inconsistent",
+                "remove_warnings() leaves {} diagnostics, the report holds {n_err} errors; input {input:?}",
+                only_errors.iter().count()
+            );
         }
     }
     // completeness seen from the output: a result without errors holds no cataloged invalid construct
